@@ -56,6 +56,8 @@ type fLeaf struct {
 	RV    fVal   `json:"rv"`
 	CV    fVal   `json:"cv"`
 	Table int    `json:"table"`
+	// Spell: which spelling the unknown operator ("nope" in the model) takes
+	Spell int `json:"spell"`
 	// random events carry the concrete values themselves (base64 / decimal / RFC3339)
 	RawR string `json:"rawr,omitempty"`
 	RawC string `json:"rawc,omitempty"`
@@ -202,17 +204,27 @@ func leafValues(lf fLeaf) (field string, rval, cval any) {
 	return
 }
 
+// the unknown operator has many spellings: no operator at all, near misses of the known ones
+var unknownOps = []string{"nope", "", "==", "eq", "=<", " =", "AND", "~", "!", "<>", "IN", "Has"}
+
+func realOp(lf fLeaf) string {
+	if lf.Op == "nope" {
+		return unknownOps[lf.Spell%len(unknownOps)]
+	}
+	return lf.Op
+}
+
 func evalLeaf(impl string, lf fLeaf) (res bool, ret string) {
 	ret = "ok"
 	p, _ := catch(func() {
 		field, rval, cval := leafValues(lf)
 		r := resourceFor(impl, lf.Kind, lf.Null, field, rval)
-		f := &jsonapi.Filter{Field: field, Op: lf.Op, Val: cval}
+		f := &jsonapi.Filter{Field: field, Op: realOp(lf), Val: cval}
 		res = f.IsAllowed(r)
 		if lf.Null && !lf.RV.Nil && reflect.DeepEqual(lf.RV, lf.CV) {
 			// the same comparison with the very pointer the resource holds (a value read from it
 			// earlier): where a value lives does not change the verdict
-			f2 := &jsonapi.Filter{Field: field, Op: lf.Op, Val: r.Get(field)}
+			f2 := &jsonapi.Filter{Field: field, Op: realOp(lf), Val: r.Get(field)}
 			if f2.IsAllowed(r) != res {
 				ret = "verdict-depends-on-the-address"
 			}
@@ -242,7 +254,7 @@ func runFilterCase(c fCase) fEvent {
 		filters := make([]*jsonapi.Filter, len(c.Leaves))
 		for i, lf := range c.Leaves {
 			_, _, cval := leafValues(lf)
-			filters[i] = &jsonapi.Filter{Field: field, Op: lf.Op, Val: cval}
+			filters[i] = &jsonapi.Filter{Field: field, Op: realOp(lf), Val: cval}
 			verdicts[i] = filters[i].IsAllowed(r)
 		}
 		var build func(n fNode) (*jsonapi.Filter, fNode)
@@ -403,8 +415,15 @@ func filterMain(args []string) {
 		for _, k := range kinds {
 			for t := 0; t < nt; t++ {
 				lf := fLeaf{Cls: lc.Cls, Kind: k, Null: lc.Null, Op: lc.Op, RV: lc.RV.norm(), CV: lc.CV.norm(), Table: t + int(*seed)}
-				for _, impl := range []string{"soft", "wrap"} {
-					emit(fCase{Fam: "filter", Kind: "leaf", Impl: impl, Leaf: lf})
+				spells := 1
+				if lc.Op == "nope" && t == 0 {
+					spells = len(unknownOps) // every spelling of the unknown operator, on the first table
+				}
+				for sp := 0; sp < spells; sp++ {
+					lf.Spell = sp
+					for _, impl := range []string{"soft", "wrap"} {
+						emit(fCase{Fam: "filter", Kind: "leaf", Impl: impl, Leaf: lf})
+					}
 				}
 			}
 		}
